@@ -1178,8 +1178,69 @@ def c15_globs(rep, tier, seed):
         rep.samples.append({"case": rows[0][0], "impl": rows[0][1], "model": rows[0][2]})
 
 
+def c15_escaped_globs(rep, tier, seed):
+    """globs outside the modelled fragment, decided by a direct oracle on the implementation: a path whose characters are all
+    escaped with a backslash is a glob that matches that path and no other (globset's documented escape; `[x]` matches x)"""
+    import random
+    rnd = random.Random(seed + 15)
+    n = n_for(tier, 600, 6000)
+    rep.rules.append(f"{n} escaped-literal globs (paths with `[ ] {{ }} * ? !` in their names, every metacharacter escaped with a backslash or wrapped in a one-character class) as positional and as --ignore globs, against the path itself and against damaged copies; direct oracle on the real flag parsing + globset: matches the path itself, nothing else")
+    pieces = ["app", "[slug]", "[id]", "{a,b}", "x*y", "what?", "!neg", "[...rest]", "src", "n m", "é", "a.b", "(group)", "[[x]]", "]", "{"]
+    meta = set("*?[]{}\\")
+    def esc(p, mode):
+        out = []
+        for ch in p:
+            if ch in meta:
+                out.append("\\" + ch if mode == 0 or ch in "]\\" else "[" + ch + "]")
+            else:
+                out.append(ch)
+        return "".join(out)
+    queries = []
+    for k in range(n):
+        depth = rnd.randint(1, 3)
+        path = "/".join(rnd.choice(pieces) for _ in range(depth)) + rnd.choice([".py", ".rs", "", ".md"])
+        if not any(c in meta for c in path):
+            path = "[slug]/" + path
+        g = esc(path, rnd.randint(0, 1))
+        # a damaged copy: one metacharacter of the path replaced by a letter, or dropped
+        idx = [i for i, c in enumerate(path) if c in meta]
+        i = rnd.choice(idx)
+        other = path[:i] + rnd.choice(["x", ""]) + path[i + 1:]
+        as_ignore = rnd.random() < 0.5
+        for target, same in ((path, True), (other, False)):
+            if other == path and not same:
+                continue
+            queries.append(({"op": "glob", "globs": ["**"] if as_ignore else [g], "ignores": [g] if as_ignore else [], "path": target,
+                             "meta": {"gen": "escaped-glob"}}, same, as_ignore))
+    d = os.path.join(K.WORK, rep.prop, "escaped_globs")
+    _sh = __import__("shutil"); _sh.rmtree(d, ignore_errors=True); os.makedirs(d)
+    with open(os.path.join(d, "raw.jsonl"), "w") as f:
+        for q, _, _ in queries:
+            f.write(json.dumps(q) + "\n")
+    K.sh([K.BWH, "replay", "--out", d, os.path.join(d, "raw.jsonl")])
+    impls = [json.loads(l) for l in open(os.path.join(d, "impl.jsonl"))]
+    if len(impls) != len(queries):
+        raise K.Broken("escaped globs: stream length mismatch")
+    bad = 0
+    for (q, same, as_ignore), im in zip(queries, impls):
+        rep.evaluations += 1
+        got = im.get("ignore") if as_ignore else im.get("allow")
+        rep.count(f"escaped glob:{'ignore' if as_ignore else 'allow'}:{'self' if same else 'other'}:{got}")
+        if same:
+            rep.nontrivial.add(("escaped", q["path"], as_ignore))
+        if "err" in im or got != same:
+            bad += 1
+            if bad <= 3:
+                rep.violation({"property": rep.prop, "component": "escaped-literal globs (direct oracle)",
+                               "what": f"the {'--ignore' if as_ignore else 'positional'} glob {(q['ignores'] or q['globs'])[0]!r} (every metacharacter of the path {q['path']!r} escaped) must {'match' if same else 'not match'} {q['path']!r}",
+                               "case": q, "impl": im})
+    if bad > 3:
+        print(f"  ({bad} failing escaped-glob queries; first 3 written as replays)")
+
+
 def c15_run(rep, tier, seed, tr):
     import cli as C, random
+    c15_escaped_globs(rep, tier, seed)
     rep.rules.append("glob sets: 1-3 positional and 0-2 --ignore globs built from literal pieces (ASCII, spaces, dots, `]`, `,`, `!`, multi-byte UTF-8), `?`, `*`, `**`, `/` in every combination plus the documented forms, against paths derived from the globs (wildcards expanded, then damaged) or random; the real flag parsing + globset + PathCheckerImpl in-process vs the Lean matcher; non-trivial = some glob matches")
     c15_globs(rep, tier, seed)
     rep.rules.append("generated trees (nested directories incl. a/ b/ b/b/, names with spaces and dots, hidden files and directories, .gitignore with exact / directory / *.ext entries, grammar-less files) x 0-3 positional globs x 0-3 --ignore globs from the documented forms x diffs naming files inside / outside the globs (incl. hidden and git-ignored ones) x start directory (root or a subdirectory); the set of files `list` prints vs the model's scope formula and the in-process parse_blocks; non-trivial = at least one file listed")
@@ -1957,6 +2018,15 @@ def _c18_run(rep, tier, seed, tr):
     rep.rules.append("plus 30 (thorough: 300) runs through the binary where scripted blocks share files with check-ai blocks (fake endpoint, delayed answers)")
     c19_run(rep, tier, seed + 2, tr, n_override=n_for(tier, 30, 300))
 CHECKS["C18"]["run"] = _c18_run
+
+
+_c20_src = CHECKS["C20"]["run"]
+def _c20_run(rep, tier, seed, tr):
+    _c20_src(rep, tier, seed, tr)
+    # the order in which the endpoint's answers arrive is a schedule too: several check-ai blocks, one answer held back
+    rep.rules.append("plus 40 (thorough: 400) check-ai scenarios through the binary against the fake endpoint, one third of them with an answer to an earlier block held back (answers arrive in another order than the blocks were taken up): every verdict on its own block")
+    c19_run(rep, tier, seed + 3, tr, n_override=n_for(tier, 40, 400))
+CHECKS["C20"]["run"] = _c20_run
 
 
 _c11_src = CHECKS["C11"]["run"]
